@@ -21,7 +21,7 @@ import collections, os, random, re, sys
 import vcommon
 from vcommon import VERIF
 
-PROPS = ["Bee2V/C11/Props.lean"]
+PROPS = ["Bee2V/C11/Props.lean", "Bee2V/C11/PropsConc.lean", "Bee2V/C11/PropsMath.lean"]
 
 # coverage class of every function of the scope (include/bee2/core, include/bee2/crypto)
 #   "diff"   : theorem + correspondence op (harness vs driver) + search oracle
@@ -44,11 +44,14 @@ COVER = {
     "beltBDEStart": "state", "beltSDEStart": "state", "beltFMTStart": "state", "beltKRPStart": "state",
     "beltMACStepG": "state", "beltMACStepG2": "state", "beltHashStepG": "state", "beltHashStepG2": "state",
     "beltHMACStepG2": "state", "bashHashStepG": "state",
-    "dstuPointCompress": "deleg", "dstuPointRecover": "deleg",
+    "dstuPointCompress": "diff", "dstuPointRecover": "diff",
 }
-DELEGATED = {"dstuPointCompress": "needs the binary-curve model (C16); covered there",
-             "dstuPointRecover": "needs the binary-curve model (C16); covered there"}
-WORD_OPS = set()   # ops on machine words (filled below with the math-header functions)
+# math headers (same-or-disjoint): word-memory models of C05 (18) and of Bee2V/C11/Math.lean (6), all in the correspondence
+for _f in ("wwCopy wwXor wwXor2 zzAdd zzAdd2 zzAdd3 zzAddW zzSub zzSub2 zzSubW zzNeg zzMulW zzAddMulW zzSubMulW zzDivW "
+           "zzAddMod zzAddWMod zzSubMod zzSubWMod zzNegMod zzDoubleMod zzHalfMod ppMulW ppAddMulW").split():
+    COVER[_f] = "diff"
+DELEGATED = {}
+WORD_OPS = set(f for f, k in COVER.items() if f[:2] in ("ww", "zz", "pp"))   # ops that address 64-bit machine words
 START_MODES = {"beltWBLStart": "WBL", "beltECBStart": "ECB", "beltCBCStart": "CBC", "beltCFBStart": "CFB",
                "beltCTRStart": "CTR", "beltMACStart": "MAC", "beltDWPStart": "DWP", "beltCHEStart": "CHE",
                "beltBDEStart": "BDE", "beltSDEStart": "SDE", "beltFMTStart": "FMT", "beltKRPStart": "KRP"}
@@ -102,7 +105,7 @@ def outputs_of(case, addr, out):
     if ret is None:
         return None, {}
     res = {}
-    okret = ret in ("0", "-") or (ret.isdigit() and case.fn.startswith("der"))
+    okret = ret in ("0", "-") or (ret.isdigit() and (case.fn.startswith("der") or case.spec.get("word")))
     if okret:
         for b, (role, szf) in case.spec["bufs"].items():
             if role in ("out", "io") and addr[b] is not None:
@@ -232,7 +235,7 @@ def build_lines(cases, dops, dres):
         dret, dar = split_out(dr)
         for cid, b in c.spec["outs"]:
             if daddr[b] is not None:
-                n = c.size(b)
+                n = c.spec.get("outs_size", {}).get(cid, c.size(b))
                 vals.append("%s=%s" % (cid, dar[daddr[b]:daddr[b] + n].hex() or "-"))
         lines.append(" ".join([c.op(), "|", dop.split(" ", 1)[1], "|", dret] + vals))
     return lines
@@ -442,7 +445,7 @@ def run(ctx):
     problems = []
     try:
         entries = regen(ctx)
-        scope = sorted(e["func"] for e in entries if e["kind"] != "disjoint" and e["header"].split("/")[1] in ("core", "crypto"))
+        scope = sorted(e["func"] for e in entries if e["kind"] != "disjoint")
         missing = [f for f in scope if f not in COVER]
         stale = [f for f in COVER if f not in scope]
         if missing:
@@ -453,7 +456,10 @@ def run(ctx):
         excl = {e["func"]: sorted(set(tuple(sorted(set(x))) for x in e["excl"])) for e in entries if e["kind"] != "disjoint"}
         want = {"beltDWPWrap": [("dest", "mac")], "beltCHEWrap": [("dest", "mac")], "beltFMTEncr": [("dest", "iv")],
                 "beltFMTDecr": [("dest", "iv")], "derTUINTDec": [("len", "val")], "derTBITDec": [("len", "val")],
-                "derTOCTDec": [("len", "val")], "derTPSTRDec": [("len", "val")]}
+                "derTOCTDec": [("len", "val")], "derTPSTRDec": [("len", "val")],
+                # modular routines: the output must not overlap mod (hypothesis `Disj c mod n` of the C05 theorems)
+                "zzAddMod": [("mod",)], "zzSubMod": [("mod",)], "zzAddWMod": [("b", "mod")], "zzSubWMod": [("b", "mod")],
+                "zzNegMod": [("b", "mod")], "zzDoubleMod": [("b", "mod")], "zzHalfMod": [("b", "mod")]}
         for f in scope:
             if excl.get(f, []) != want.get(f, []):
                 problems.append("exclusions of %s changed in the header: %s (theorem assumes %s)" % (f, excl.get(f), want.get(f, [])))
@@ -467,8 +473,9 @@ def run(ctx):
     # the Lean-side coverage table must name existing theorems and agree with COVER
     src = open(os.path.join(vcommon.LEAN, PROPS[0]), encoding="utf-8").read()
     m = re.search(r"def covered : List \(String × String\) := \[(.*?)\]\n", src, flags=re.S)
-    pairs = re.findall(r'\("(\w+)",\s*"([\w\-]+)"\)', m.group(1)) if m else []
-    thms = set(n.split(".")[-1] for n in ctx.theorems_of(PROPS[0]))
+    pairs = re.findall(r'\("(\w+)",\s*"([\w\-.]+)"\)', m.group(1)) if m else []
+    thms = set(n.split(".")[-1] for rel in PROPS for n in ctx.theorems_of(rel))
+    thms |= set("C05." + n.split(".")[-1] for n in ctx.theorems_of("Bee2V/C05/PropsAlias.lean"))
     for f, t in pairs:
         if t != "-" and t not in thms:
             problems.append("covered: %s names a missing theorem %s" % (f, t))
@@ -481,7 +488,7 @@ def run(ctx):
     exe = ctx.cc("harness/c11.c", "asan")
 
     # ---- generate placements; pass 1: disjoint calls on the implementation
-    cases = corpus_cases(S) + regression_cases(ctx, exe, S) + gen_cases(ctx, exe, S) + memjoin_sweep(ctx, S)
+    cases = corpus_cases(S) + regression_cases(ctx, exe, S) + gen_cases(ctx, exe, S) + memjoin_sweep(ctx, S) + S.math_cases(ctx.rng, ctx.tier)
     dops = [c.disjoint_op() for c in cases]
     dres = run_robust(ctx, exe, [d[0] for d in dops])
     ores = run_robust(ctx, exe, [c.op() for c in cases])
@@ -649,7 +656,7 @@ def replay(ctx, path):
 
 # ------------------------------------------------------------------ C19: overlap behaviour on the other configurations
 # op families whose lines address machine words (8-octet words in the 64-bit stream)
-C19_WORD_SPECIFIC = set()
+C19_WORD_SPECIFIC = set(WORD_OPS)
 
 
 def c19_stream():
